@@ -7,7 +7,7 @@ ID = "C09"
 LEAN_MODULE = "Ucfg.Props.C09"
 LEVEL_TEXT = 'Permutation theorems for dictionary lookup, dictionary merge and normalizeMapInto over any number of distinct simple keys (normMapInto_order_independent); normalisation of overlapping dotted keys under permutation is compared (model on given and reversed order; 12/48 permuted repetitions on the real code) - partial.'
 CORRESPONDENCE = "Normalize.normMapInto (explicit entry order) / Merge.mergeDictP ~ NewFrom / Merge / Unpack repeated on identical arguments"
-RULE = ("the C05 inputs biased to keys that overlap after dotted-path expansion (a dotted and a nested definition of the same "
+RULE = ("Plus: the overlapping spellings merged onto an existing config under every list policy (global and per field), with empty lists / objects / nulls at a name next to a longer name below it. Main stream: the C05 inputs biased to keys that overlap after dotted-path expansion (a dotted and a nested definition of the same "
         "prefix, index keys next to lists, primitives under a prefix that is also a dictionary, nulls and list padding in one spelling "
         "against values in the other, sparse overlays of one address space) and merges of such configs, plus the C08 reference graphs "
         "read by one whole-config Unpack; every "
@@ -104,6 +104,30 @@ def gen(rng, tier):
         src = M([(k, shape()) for k in ks])
         yield {"k": "norm", "from": src, "opts": [opt("PathSep", ".")], "repeat": rep, "_tag": "order/random-overlap",
                "_nt": True, "_sig": "rov|%s|%s" % (",".join(sorted(ks)), ",".join(sorted(json.dumps(v)[:12] for _, v in src["m"])))}
+    # the same overlapping spellings merged into an existing config under every list policy (global and per field): the
+    # result must not depend on the order the source's entries are visited in
+    brng = rng.fork("overlap-onto-base")
+    for _ in range(n // 3):
+        ks = brng.shuffle(NAMES)[:2 + brng.below(3)]
+        src = M([(k, shape()) for k in ks])
+        base = brng.pick([M([("a", A([U(1), U(2)]))]), M([("a", M([("b", A([U(1), U(2)])), ("c", U(3))]))]), M([("a", A([M([("b", U(1))]), U(2)]))]),
+                          M([("a", A([A([U(1), U(2)]), U(3)]))])])
+        pol = brng.pick([[], [opt("ReplaceArr")], [opt("Replace")], [opt("Append")], [opt("Prepend")], [opt("FieldReplace", ["a"])], [opt("FieldAppend", ["a.b"])]])
+        yield {"k": "norm", "from": src, "base": base, "bopts": [opt("PathSep", ".")], "opts": [opt("PathSep", ".")] + pol, "repeat": rep,
+               "_tag": "order/overlap-onto-base", "_nt": True,
+               "_sig": "ovbase|%s|%s|%s" % (pol[0]["o"] if pol else "", ",".join(sorted(ks)), json.dumps(base)[:30])}
+    # ... directed: an empty list / object / null at a name next to a longer name below it, over a base that holds a list or an
+    # object there, under the replacing policies (whether the empty value "is there" must not depend on the visiting order)
+    for _ in range(n // 6):
+        two = brng.chance(0.3)
+        P = "a.b" if two else "a"
+        base = M([("a", M([("b", A([U(1), U(2)])), ("c", U(3))]))]) if two else brng.pick([M([("a", A([U(1), U(2)]))]), M([("a", M([("x", U(1))]))])])
+        src = M(brng.shuffle([(P, brng.pick([A([]), A([]), M([]), None])), (P + "." + brng.pick(["b", "x", "0", "1", "x.y"]), brng.pick([U(7), S("s"), M([("q", U(1))])]))]
+                             + ([("z", U(1))] if brng.chance(0.3) else [])))
+        pol = brng.pick([[opt("ReplaceArr")], [opt("Replace")], [opt("FieldReplace", [P])], [opt("FieldReplace", ["a"])], [], [opt("Append")]])
+        yield {"k": "norm", "from": src, "base": base, "bopts": [opt("PathSep", ".")], "opts": [opt("PathSep", ".")] + pol, "repeat": rep,
+               "_tag": "order/empty-next-to-longer-name", "_nt": True,
+               "_sig": "emptylonger|%s|%s|%s" % (pol[0]["o"] if pol else "", P, json.dumps(src)[:40])}
     # names that run through a setting which is a reference (with variable expansion on): a reference is not a container, the
     # second definition is a duplicate in every order - never a write into the referenced object
     rrng = rng.fork("through-reference")
